@@ -146,7 +146,12 @@ def compare_arc(S, ctx, seg, e, what):
         return None
     ctx.mon("arc-pointwise")
     chord = dist(e["start"], e["end"])
-    bound = b_arcsolve(max(ref.rx, ref.ry, chord), e["S"])
+    size = max(ref.rx, ref.ry, chord)
+    bound = b_arcsolve(size, e["S"])
+    # conditioning of the end-point -> centre solve: the chord is a difference of coordinates of magnitude S (absolute noise ~ 16 ulp of S), and
+    # on a flat ellipse the parameter angle magnifies it by the ratio of the radii (same term as C07's re-parsed arcs)
+    ecc = max(ref.rx, ref.ry) / max(min(ref.rx, ref.ry), 1e-300)
+    bound += size * min(4.0, ecc * 16e-12 * e["S"] / max(chord, 1e-300))
     worst = 0.0
     for t in ARC_T:
         p = seg.point(t)
